@@ -44,8 +44,24 @@ def valid_utf8(b):
 def gen(rng, tier):
     out = []
     sch = lg.rich_scheme()
-    g = lg.Gen(rng, sch, features=("index", "each", "quant", "oneof", "call", "vec", "mapbool", "inlist"), max_depth=3)
+    g = lg.Gen(rng, sch, features=("index", "each", "quant", "oneof", "call", "vec", "mapbool", "inlist", "regex"),
+               max_depth=3)
     n = 2500 if tier == "quick" else 70000
+    # every well-formed filter cut after each of its tokens (an operator, an opening bracket, a comma ... followed
+    # by the end of the input), with and without trailing white space
+    for i in range(n // 10):
+        e = g.gen_filter()
+        toks = lg.render_lexpr(sch, e, lg.Layout()).split(" ")
+        for k in range(1, len(toks)):
+            cut = " ".join(toks[:k])
+            out.append(parse_case(sch, (cut + rng.choice(["", "", " ", "\n", " \r\n "])).encode(), "default"))
+    for op in ("==", "!=", "<", "<=", ">", ">=", "eq", "ne", "lt", "le", "gt", "ge", "&", "bitwise_and", "contains",
+               "matches", "~", "wildcard", "strict wildcard", "strict", "in", "in {", "in $", "in $l1.", "and", "or",
+               "xor", "&&", "||", "^^"):
+        for lhs in ("str", "num", "ip.src", "strs[0]", "hdr[\"a\"]", "lower(str)", "tt"):
+            for tail in ("", " ", "\n"):
+                out.append(parse_case(sch, lhs + " " + op + tail, "default"))
+                out.append(parse_case(sch, "tt and\n(" + lhs + " " + op + tail, "default"))
     for i in range(n):
         e = g.gen_filter()
         text = lg.render_lexpr(sch, e, lg.Layout(rng)).encode()
